@@ -396,7 +396,16 @@ func (parEngine) execute(sc *Scenario) *Outcome {
 	if free && nonEmpty >= 2 {
 		out.Distinct = append(out.Distinct, fnv(fmt.Sprintf("free|%s|%d", text, pc.Workers)))
 	}
-	if nonEmpty >= 2 && !inOrder {
+	// a schedule counts as explored when the workers did not simply run in their natural order: results arrived
+	// out of order (channel sends) or, for implementations that do not send at all (result slots + WaitGroup), some
+	// decision among two or more runnable goroutines did not take the first one
+	permuted := false
+	for _, d := range res.Decisions {
+		if len(d.Parked) >= 2 && d.Pick != 0 {
+			permuted = true
+		}
+	}
+	if nonEmpty >= 2 && (!inOrder || (len(arrival) == 0 && permuted)) {
 		out.stat("arrival_order_permuted", 1)
 		out.Distinct = append(out.Distinct, fnv(fmt.Sprintf("%s|%d|%v", text, pc.Workers, schedTrace(res))))
 	}
